@@ -472,11 +472,11 @@ def run_stat_query(ctx, rng, ds, q, api="compute_statistic", indexed=None, sel=N
             # still be the reduction of exactly the selected sub-array
             sl = tuple(shortcut_slices)
             sub, ksub = vals[sl], keep[sl]
+            # (an empty sub-array reduces to NaN cells of the sub-array's reduced shape, possibly an empty array)
+            esub = ref_statistic(q["stat"], sub, ksub, q["axis"], q["pct"])
+            ok_sub = g.shape == esub.shape and close(g, esub)
             if sub.size == 0:
-                ok_sub = g.ndim == 0 and bool(np.isnan(g))
-            else:
-                esub = ref_statistic(q["stat"], sub, ksub, q["axis"], q["pct"])
-                ok_sub = g.shape == esub.shape and close(g, esub)
+                ctx.count("stat_shortcut_empty_subarray_compared")
             ctx.count("stat_shortcut_subarray_compared")
             if not ok_sub:
                 sig = dict(feats)
